@@ -8,6 +8,7 @@ import BevySyncModel.Props.C17
 import BevySyncModel.Props.C01
 import BevySyncModel.Props.C02
 import BevySyncModel.Props.C04
+import BevySyncModel.Props.C05
 import BevySyncModel.Props.C08
 import BevySyncModel.Props.C09
 import BevySyncModel.Props.C10
